@@ -297,24 +297,80 @@ func c12Guard(p *Prog, r *Report, or *overrideRoles) {
 	// re-encode call arguments: (raw, body) of this request
 	var ab []string
 	ncalls := 0
-	eachCall(fn, func(c ssa.CallInstruction) {
-		if f := c.Common().StaticCallee(); f != nil && reenc[f] {
+	// (in the override function itself or in a private helper only it calls: the helper must be given
+	// this request's frame and body for the parameters it passes on)
+	isBodyPar := func(v ssa.Value) (*ssa.Parameter, bool) {
+		par, ok := v.(*ssa.Parameter)
+		return par, ok && typeIs(par.Type(), "frame", "Body")
+	}
+	parIndex := func(h *ssa.Function, par *ssa.Parameter) int {
+		for i, q := range h.Params {
+			if q == par {
+				return i
+			}
+		}
+		return -1
+	}
+	scan := []*ssa.Function{fn}
+	for _, h := range withCallees(p, fn, 1) {
+		if h != fn && h.Parent() == nil && p.InRepo(h) && !reenc[h] && onlyCalledFrom(p, h, fn, 1) {
+			scan = append(scan, h)
+		}
+	}
+	for _, h := range scan {
+		h := h
+		eachCall(h, func(c ssa.CallInstruction) {
+			if f := c.Common().StaticCallee(); f == nil || !reenc[f] {
+				return
+			}
 			ncalls++
-			args := c.Common().Args
 			okRaw, okBody := false, false
-			for _, a := range args {
-				if a == ssa.Value(rawPar) {
-					okRaw = true
+			for _, a := range c.Common().Args {
+				if h == fn {
+					if a == ssa.Value(rawPar) {
+						okRaw = true
+					}
+					if _, ok := isBodyPar(a); ok {
+						okBody = true
+					}
+					continue
 				}
-				if par, ok := a.(*ssa.Parameter); ok && typeIs(par.Type(), "frame", "Body") {
-					okBody = true
+				// helper: a is a parameter of the helper that every call in fn binds to fn's own frame / body
+				par, isPar := a.(*ssa.Parameter)
+				if !isPar {
+					continue
+				}
+				idx := parIndex(h, par)
+				all, n := true, 0
+				isBody := false
+				eachCall(fn, func(cs ssa.CallInstruction) {
+					if cs.Common().StaticCallee() != h || idx < 0 || idx >= len(cs.Common().Args) {
+						return
+					}
+					n++
+					arg := cs.Common().Args[idx]
+					if arg == ssa.Value(rawPar) {
+						return
+					}
+					if _, ok := isBodyPar(arg); ok {
+						isBody = true
+						return
+					}
+					all = false
+				})
+				if all && n > 0 {
+					if isBody {
+						okBody = true
+					} else {
+						okRaw = true
+					}
 				}
 			}
 			if !okRaw || !okBody {
 				ab = append(ab, p.Pos(c.Pos())+": re-encoding is not given this request's frame and decoded body")
 			}
-		}
-	})
+		})
+	}
 	r.check(len(ab) == 0 && ncalls >= 1, rule, fn.Name()+":reencode-args", p.Pos(fn.Pos()), fmt.Sprintf("%d re-encode sites", ncalls), strings.Join(ab, " || "))
 }
 
